@@ -353,6 +353,8 @@ def parseOp (j : Json) : R Op := do
   match op with
   | "set" => pure (.set h name idx (← parsePrimJ ((optField j "val").getD .null)) o)
   | "setchild" =>
+    if boolFieldD j "nilChild" false then return (.setChildNil h)
+    if (optField j "childHandle").isSome then return (.setChildHandle h (natField j "childHandle"))
     let d ← parseGoData ((optField j "val").getD .null)
     let co ← parseOpts ((optField j "copts").getD (.arr #[]))
     match newFrom co d with
@@ -370,6 +372,7 @@ def parseOp (j : Json) : R Op := do
   | "has" => pure (.has h name idx o)
   | "count" => pure (.count h name)
   | "info" => pure (.info h)
+  | "path" => pure (.pathOf h)
   | _ => throw s!"unknown op {op}"
 
 def opOutJson : OpOut → Json
